@@ -248,6 +248,9 @@ size_t SCPI_UInt64ToStrBase(uint64_t val, char * str, size_t len, int8_t base) {
  * @return number of bytes written to str (without '\0')
  */
 size_t SCPI_FloatToStr(float val, char * str, size_t len) {
+    if (len == 0) {
+        return 0;
+    }
     SCPIDEFINE_floatToStr(val, str, len);
     return strlen(str);
 }
@@ -260,6 +263,9 @@ size_t SCPI_FloatToStr(float val, char * str, size_t len) {
  * @return number of bytes written to str (without '\0')
  */
 size_t SCPI_DoubleToStr(double val, char * str, size_t len) {
+    if (len == 0) {
+        return 0;
+    }
     SCPIDEFINE_doubleToStr(val, str, len);
     return strlen(str);
 }
@@ -1017,6 +1023,11 @@ char * SCPI_dtostre(double __val, char * __s, size_t __ssize, unsigned char __pr
     int sign = SCPIDEFINE_signbit(__val);
     char * s = buffer;
     int decpt;
+
+    if (__ssize == 0) {
+        return __s;
+    }
+
     if (sign) {
         __val = -__val;
         s[0] = '-';
